@@ -989,10 +989,24 @@ func TestC27(t *testing.T) {
 
 	keys := []string{"", "key"}
 
+	// order: what runs under every name first, so that a time cap on a loaded machine cuts the plain-name bulk
 	var cases []verifC27Item
 	for _, l := range full {
 		cases = append(cases, verifC27Item{[]string{l}, 1})
 	}
+	for _, a := range nameLines {
+		for _, b := range nameLines {
+			cases = append(cases, verifC27Item{[]string{a, b}, 2})
+		}
+	}
+	for _, a := range tiny {
+		for _, b := range tiny {
+			for _, c := range tiny {
+				cases = append(cases, verifC27Item{[]string{a, b, c}, 2})
+			}
+		}
+	}
+	legacyStart := len(cases)
 	for _, a := range medium {
 		for _, b := range medium {
 			cases = append(cases, verifC27Item{[]string{a, b}, 0})
@@ -1008,19 +1022,7 @@ func TestC27(t *testing.T) {
 			}
 		}
 	}
-	legacyFiles := len(cases)
-	for _, a := range nameLines {
-		for _, b := range nameLines {
-			cases = append(cases, verifC27Item{[]string{a, b}, 2})
-		}
-	}
-	for _, a := range tiny {
-		for _, b := range tiny {
-			for _, c := range tiny {
-				cases = append(cases, verifC27Item{[]string{a, b, c}, 2})
-			}
-		}
-	}
+	legacyFiles := len(cases) - legacyStart
 	// files that go through meta/gui and deriveDesktopFilesContent, each under every name at once
 	var derived [][]string
 	for _, l := range otherLines {
@@ -1039,7 +1041,7 @@ func TestC27(t *testing.T) {
 	}
 	r.Info("bounds", map[string]interface{}{"line_alphabet_full": len(full), "exec_lines": len(execLines), "icon_lines": len(iconLines), "icon_max_tokens": iconTokens, "other_lines": len(otherLines),
 		"two_line_alphabet": len(medium), "three_four_line_alphabet": len(small), "two_line_alphabet_every_name": len(nameLines), "three_line_alphabet_every_name": len(tiny),
-		"files": len(cases), "files_under_plain_names_only": legacyFiles - len(full), "files_through_meta_gui": len(derived), "snap_variants": keys, "desktop_file_names": verifC27Names, "apps": verifC27AppNames})
+		"files": len(cases), "files_under_plain_names_only": legacyFiles, "files_through_meta_gui": len(derived), "snap_variants": keys, "desktop_file_names": verifC27Names, "apps": verifC27AppNames})
 
 	var evals, nontrivial, suppressed, unsafeNameExec int64
 	var classMu sync.Mutex
@@ -1102,56 +1104,7 @@ func TestC27(t *testing.T) {
 		}
 	}
 
-	// ---- part 1: sanitizeDesktopFile called directly, dirs root "/" ----
-	envs := map[string]*verifC27Env{}
-	for _, k := range keys {
-		for _, b := range allBases {
-			envs[k+"|"+b] = verifC27NewEnv(k, b)
-		}
-	}
-	nameSets := [][]string{allBases[:2], allBases, allBases[2:]}
-	chunk := 2000
-	nchunks := (len(cases) + chunk - 1) / chunk
-	eng.ParallelFor(nchunks, func(ci int) {
-		if r.TimeUp() {
-			r.Cap("time", "stopped early")
-			return
-		}
-		if r.NumViolations() >= 60 {
-			r.Cap("violations", "enumeration stopped after 60 recorded violations")
-			return
-		}
-		lo, hi := ci*chunk, (ci+1)*chunk
-		if hi > len(cases) {
-			hi = len(cases)
-		}
-		local := map[string]int64{}
-		var ev, nt int64
-		for _, it := range cases[lo:hi] {
-			lines := it.lines
-			raw := verifC27Raw(lines)
-			for _, k := range keys {
-				for _, b := range nameSets[it.names] {
-					e := envs[k+"|"+b]
-					// a fresh Info per call is not needed: sanitizeDesktopFile only reads it
-					out := string(sanitizeDesktopFile(e.info, e.desktopFile, raw))
-					ev++
-					probs, facts := e.check(lines, out)
-					if len(probs) > 0 {
-						record(e, verifC27Case{Key: k, DesktopBase: b, Lines: lines}, probs)
-					}
-					if tally(local, e, len(lines), facts) {
-						nt++
-					}
-				}
-			}
-		}
-		atomic.AddInt64(&evals, ev)
-		atomic.AddInt64(&nontrivial, nt)
-		flush(local)
-	})
-
-	// ---- part 2: the same through files in <mount dir>/meta/gui and the real deriveDesktopFilesContent,
+	// ---- part 1 (small, runs first): files in <mount dir>/meta/gui read by the real deriveDesktopFilesContent,
 	// under a temporary dirs root; every worker has a snap revision (= mount dir) of its own ----
 	var derivedFiles, derivedCalls int64
 	dirs.SetRootDir(t.TempDir())
@@ -1215,6 +1168,55 @@ func TestC27(t *testing.T) {
 	})
 	dirs.SetRootDir("/")
 
+	// ---- part 2: sanitizeDesktopFile called directly, dirs root "/" ----
+	envs := map[string]*verifC27Env{}
+	for _, k := range keys {
+		for _, b := range allBases {
+			envs[k+"|"+b] = verifC27NewEnv(k, b)
+		}
+	}
+	nameSets := [][]string{allBases[:2], allBases, allBases[2:]}
+	chunk := 2000
+	nchunks := (len(cases) + chunk - 1) / chunk
+	eng.ParallelFor(nchunks, func(ci int) {
+		if r.TimeUp() {
+			r.Cap("time", "stopped early")
+			return
+		}
+		if r.NumViolations() >= 60 {
+			r.Cap("violations", "enumeration stopped after 60 recorded violations")
+			return
+		}
+		lo, hi := ci*chunk, (ci+1)*chunk
+		if hi > len(cases) {
+			hi = len(cases)
+		}
+		local := map[string]int64{}
+		var ev, nt int64
+		for _, it := range cases[lo:hi] {
+			lines := it.lines
+			raw := verifC27Raw(lines)
+			for _, k := range keys {
+				for _, b := range nameSets[it.names] {
+					e := envs[k+"|"+b]
+					// a fresh Info per call is not needed: sanitizeDesktopFile only reads it
+					out := string(sanitizeDesktopFile(e.info, e.desktopFile, raw))
+					ev++
+					probs, facts := e.check(lines, out)
+					if len(probs) > 0 {
+						record(e, verifC27Case{Key: k, DesktopBase: b, Lines: lines}, probs)
+					}
+					if tally(local, e, len(lines), facts) {
+						nt++
+					}
+				}
+			}
+		}
+		atomic.AddInt64(&evals, ev)
+		atomic.AddInt64(&nontrivial, nt)
+		flush(local)
+	})
+
 	for ck, rep := range classes {
 		r.Add("class_"+strings.NewReplacer(":", "_", "-", "_").Replace(ck)+"_instances", rep.count)
 		if ck == verifC27IconClass && os.Getenv("VERIF_C27_SKIP_ICON_CLASS") != "" {
@@ -1237,8 +1239,8 @@ func TestC27(t *testing.T) {
 		r.Add("violations_suppressed_after_60", suppressed)
 	}
 	r.Sample(verifC27Case{Key: "key", DesktopBase: "app.desktop", Lines: []string{"[Desktop Entry]", "Exec=foo.app %U", "Icon=${SNAP}/x.png", "X-Foo-Exec=evil"}})
-	r.Sample(verifC27Case{Key: "", DesktopBase: "other-1.desktop", Lines: cases[legacyFiles/2].lines})
-	r.Sample(verifC27Case{Key: "key", DesktopBase: "app.desktop", Lines: cases[len(full)+len(medium)*3+5].lines})
+	r.Sample(verifC27Case{Key: "", DesktopBase: "other-1.desktop", Lines: cases[legacyStart+legacyFiles/2].lines})
+	r.Sample(verifC27Case{Key: "key", DesktopBase: "app.desktop", Lines: cases[legacyStart+len(medium)*3+5].lines})
 	r.Sample(verifC27Case{Key: "key", DesktopBase: verifC27Names[2].Base, Lines: []string{"[Desktop Entry]", "Exec=foo.app %U"}, Via: "derive"})
 	r.Finish("every 1-line file over the full line alphabet under each of the 16 desktop file names; every 2-line file over the medium alphabet and every 3- and 4-line file over the small alphabet under the 2 plain names; every 2-line file over the Exec-centred alphabet and every 3-line file over the tiny alphabet under the 14 other names; each for 2 snaps (with/without instance key), sanitizeDesktopFile called directly; plus every 1-line header/key/Exec file and every 2- and 3-line file over the tiny alphabet written to meta/gui under all 16 names and read by deriveDesktopFilesContent; distinct_nontrivial = (file, snap, name) evaluations in which a line was dropped or an Exec/Icon/[Desktop Entry] line reached the output")
 }
